@@ -109,7 +109,6 @@ PROPS = {
                 "packets built with the exported constants; non-trivial = at least one setter call",
     },
     "C03": {
-        "theorem_files": ["Properties/C03.v", "Findings/C03_disconnect.v"],
         "suites": [("read", 3000, 60000)],
         "oracle": (4000, 150000),
         "rule": "frames from the specification's encoder over random abstract packets: 15 types x property subsets x random permutations x "
